@@ -29,6 +29,11 @@ C["C14"] = ("Coq theorems over the dispatch model instantiated with the handler 
             "strategy; any candidate is the owner or one of its replicas. Tie: tables regenerated each run; the real handleRequest/handlers/chooseHost/CLUSTER NODES loading run against fake "
             "backends and compared (reply, every address+body that reached a backend) with the extracted model, and against the same model driven by Redis' flags (specification side).",
             "Redis' command flags are a trusted transcription; replica choice by wall-clock checked as set membership; Unicode case mapping facts of Go assumed.", "DESIGN.md §4 C14")
+C["C18"] = ("Coq theorems: the composed cursor decodes back to (node index, node cursor) for every index < 2^16 and node cursor < 2^48; a cursor whose index is past the last node yields the "
+            "terminating reply; for every list of fewer than 65535 nodes whose own cursor chains (any non-zero values below 2^48) return to 0, the client iteration from 0 ends at cursor 0 after "
+            "exactly sum(chain)+1 calls, returns exactly the nodes' key batches and visits each node once along its chain. Tie: the real handleScan/Convert/reply hook driven through the "
+            "white-box environment: full client iterations over scripted nodes (cursors around 2^47/2^48) and single calls with boundary cursors and malformed node replies vs the extracted model.",
+            "Host list unchanged during an iteration; node cursors below 2^48; more than 32767 nodes exceed int64 cursors (documented boundary).", "DESIGN.md §4 C18")
 checks = []
 for pid in sorted(C):
     text, note, ref = C[pid]
